@@ -27,6 +27,7 @@ type Ev struct {
 	LTok    []string `json:"ltok,omitempty"`    // their Token() at the same instant
 	Rec     *RecView `json:"rec,omitempty"`     // live record of the instance's group at this instant
 	Snap    []ISnap  `json:"snap,omitempty"`    // quiescent snapshot
+	Recs    map[string]*RecView `json:"recs,omitempty"` // q: live record of every other group
 }
 
 type RecView struct {
